@@ -41,6 +41,13 @@ pub fn usage_bias(rng: &mut Rng, c: &mut CmdS) {
         if positional { prev_pos_required = a.required; if i + 1 == n && rng.chance(1, 4) { a.last = true; a.trailing_var_arg = false; } }
     }
     for g in c.groups.iter_mut() { if rng.chance(1, 3) { g.required = true; } }
+    // explicit indices declared OUT OF ORDER: the first two positionals keep their indices but swap their places in the
+    // definition (`dest.index(2)` before `src.index(1)`)
+    let pos: Vec<usize> = c.args.iter().enumerate().filter(|(_, a)| a.short.is_none() && a.long.is_none()).map(|(i, _)| i).collect();
+    if pos.len() >= 2 && rng.chance(1, 4) {
+        for (rank, &i) in pos.iter().enumerate() { c.args[i].index = Some(rank + 1); }
+        c.args.swap(pos[0], pos[1]);
+    }
     for s in c.subs.iter_mut() { usage_bias(rng, s); }
 }
 
@@ -114,6 +121,35 @@ pub fn run(rep: &mut Report, o: &Opts) {
             out
         }));
         let real = match r { Ok(x) => x, Err(_) => { rep.oracle_fail("help-render-panics", &key, "render_usage panicked"); "PANIC".to_string() } };
+        // oracle on the real line: no flag of a HIDDEN, OPTIONAL option of the root (not required, not the target of any
+        // `requires`) occurs in the root's usage line (no flatten_help, no override_usage)
+        if !t.flatten && t.ux.override_usage.is_none() && real != "PANIC" {
+            let line = String::from_utf8_lossy(&unhex(real.split(' ').nth(1).unwrap_or("-"))).to_string();
+            let first = line.lines().next().unwrap_or("").to_string();
+            for a in cmd.args.iter().filter(|a| a.hide && !a.required && (a.long.is_some() || a.short.is_some())) {
+                let targeted = cmd.args.iter().any(|b| b.requires.iter().any(|(_, tid)| tid == &a.id)) || cmd.groups.iter().any(|g| g.requires.contains(&a.id));
+                if targeted { continue; }
+                let toks: Vec<String> = a.long.iter().map(|l| format!("--{l}")).chain(a.short.iter().map(|c| format!("-{c}"))).collect();
+                for tok in toks {
+                    if crate::c12::has_token(&first, &tok) {
+                        let in_group = cmd.groups.iter().any(|g| g.args.contains(&a.id)) || !a.groups.is_empty();
+                        rep.oracle_fail(if in_group { "hidden-item-shown:usage-line:member-of-a-displayed-group" } else { "hidden-item-shown" }, &key, &format!("{tok:?} of the hidden optional arg {} appears in {first:?}", a.id));
+                    }
+                }
+            }
+        }
+        // ... and every VISIBLE REQUIRED argument of the root is named there (by a flag, its value name or its id)
+        if !t.flatten && t.ux.override_usage.is_none() && real != "PANIC" {
+            let line = String::from_utf8_lossy(&unhex(real.split(' ').nth(1).unwrap_or("-"))).to_string();
+            let first = line.lines().next().unwrap_or("").to_string();
+            for a in cmd.args.iter().filter(|a| a.required && !a.hide) {
+                let mut toks: Vec<String> = a.long.iter().map(|l| format!("--{l}")).chain(a.short.iter().map(|c| format!("-{c}"))).collect();
+                if toks.is_empty() { toks = if a.val_names.is_empty() { vec![a.id.clone()] } else { a.val_names.clone() }; }
+                if !toks.iter().any(|tok| crate::c12::has_token(&first, tok)) {
+                    rep.oracle_fail("visible-required-arg-not-in-usage-line", &key, &format!("none of {toks:?} (required arg {}) appears in {first:?}", a.id));
+                }
+            }
+        }
         let req = format!("usaget {} {} {}", cmd.depth(), cmd.encode(), enc_tree(&cmd, &t, "prog", &[]));
         rep.count("usage:commands");
         if cmd.args.iter().any(|a| a.required) || cmd.groups.iter().any(|g| g.required) { rep.count("usage:with_required_arg_or_group"); }
